@@ -2,7 +2,7 @@ ID = "C12"
 N_QUICK = 320
 N_THOROUGH = 6000
 MODEL_SHOW = "run_items"
-DISAGREE_IS_VIOLATION = True   # replies, INodeApp calls and ctrl.cmd deliveries are exactly what the property fixes
+DISAGREE_IS_VIOLATION = False  # the exact publication sequence (e.g. a repeated identical state) is not fixed by the property; pure model disagreements are reported as such
 RULE = ("exhaustive: one retirable service after query+retire, every sequence of length <= 4 (quick) / 6 (thorough) over "
         "{retire, retired(1), exit, stop-done, retired(unknown)}; two services (second supporting retirement or not), every "
         "sequence of length <= 3 / 5 over {query-all, retire, retired(1), retired(2), exit, stop-done}; each followed by web_nodes. "
